@@ -20,8 +20,36 @@ import CalVerif.Spec.SstEnc
 
 open Biff
 
+/-! fast hex I/O (requests are megabytes long): ByteArray indexing instead of `List Char` -/
+
+def hexValB (c : UInt8) : UInt8 :=
+  if 48 ≤ c && c ≤ 57 then c - 48
+  else if 97 ≤ c && c ≤ 102 then c - 87
+  else if 65 ≤ c && c ≤ 70 then c - 55
+  else 255
+
+def bytesOfHexFast (s : String) : Option (List UInt8) :=
+  if s = "-" then some [] else
+    let a := s.toUTF8
+    if a.size % 2 ≠ 0 then none else
+      let rec go : Nat → List UInt8 → Option (List UInt8)
+        | 0, acc => some acc
+        | i + 1, acc =>
+          let h := hexValB (a.get! (2 * i))
+          let l := hexValB (a.get! (2 * i + 1))
+          if h == 255 || l == 255 then none else go i ((h * 16 + l) :: acc)
+      go (a.size / 2) []
+
+def hexDigitB (n : UInt8) : UInt8 := if n < 10 then 48 + n else 87 + n
+
+def hexOfBytesFast (bs : List UInt8) : String :=
+  let a := bs.foldl (fun (acc : ByteArray) b => (acc.push (hexDigitB (b / 16))).push (hexDigitB (b % 16))) (ByteArray.emptyWithCapacity (2 * bs.length))
+  String.fromUTF8! a
+
+def hexOrDashFast (bs : List UInt8) : String := if bs.isEmpty then "-" else hexOfBytesFast bs
+
 def utf8Hex (cps : List Nat) : String :=
-  Wire.hexOrDash (String.ofList (cps.map Char.ofNat)).toUTF8.toList
+  hexOrDashFast (String.ofList (cps.map Char.ofNat)).toUTF8.toList
 
 def showStrings (r : Res (List (List Nat))) : String :=
   match r with
@@ -37,12 +65,12 @@ def showString (r : Res (List Nat)) : String :=
   | .panic _ => "panic"
   | .outOfFuel => "fuel"
 
-def showFrags (fs : List Bytes) : String := "/".intercalate (fs.map Wire.hexOrDash)
+def showFrags (fs : List Bytes) : String := "/".intercalate (fs.map hexOrDashFast)
 
 def unitsOfBytes : Bytes → List Nat := units16
 
 def optBytes (s : String) : Option (Option Bytes) :=
-  if s = "~" then some none else (Wire.bytesOfHex s).map some
+  if s = "~" then some none else (bytesOfHexFast s).map some
 
 def natList (s : String) : Option (List Nat) :=
   if s = "-" then some [] else (s.splitOn "/").mapM String.toNat?
@@ -57,7 +85,7 @@ def cutList (s : String) : Option (List (Nat × Bool)) :=
 def parseEntry (s : String) : Option (Entry × EntryLayout) :=
   match s.splitOn "," with
   | [u, r, x, cb, w0, cuts, rc, xc] => do
-    let ub ← Wire.bytesOfHex u
+    let ub ← bytesOfHexFast u
     let r ← optBytes r
     let x ← optBytes x
     let cuts ← cutList cuts
@@ -78,7 +106,7 @@ def handle (line : String) : String :=
   | ["enc", total, tbl] =>
     match total.toNat?, parseTable tbl with
     | some n, some (t, l) =>
-      s!"{Wire.hexOfBytes (frameSst (encodeSst n t l))} legal={if decide (Legal n t l) then 1 else 0}"
+      s!"{hexOfBytesFast (frameSst (encodeSst n t l))} legal={if decide (Legal n t l) then 1 else 0}"
     | _, _ => "bad-op"
   | ["case", total, tbl] =>
     match total.toNat?, parseTable tbl with
@@ -86,14 +114,14 @@ def handle (line : String) : String :=
       let bytes := frameSst (encodeSst n t l)
       let model := sstFromStream (fuelFor bytes) bytes
       let expect : Res (List (List Nat)) := .ok (t.map fun e => decodeUtf16 e.units)
-      s!"bytes {Wire.hexOfBytes bytes} legal {if decide (Legal n t l) then 1 else 0} model {showStrings model} expect {showStrings expect}"
+      s!"bytes {hexOfBytesFast bytes} legal {if decide (Legal n t l) then 1 else 0} model {showStrings model} expect {showStrings expect}"
     | _, _ => "bad-op"
   | ["dec", hex] =>
-    match Wire.bytesOfHex hex with
+    match bytesOfHexFast hex with
     | some bs => showStrings (sstFromStream (fuelFor bs) bs)
     | none => "bad-op"
   | ["recs", hex] =>
-    match Wire.bytesOfHex hex with
+    match bytesOfHexFast hex with
     | some bs =>
       match records (fuelFor bs) bs with
       | .ok rs => "ok " ++ ",".intercalate (rs.map fun r => s!"{r.typ}={showFrags (r.data :: r.cont)}")
@@ -102,7 +130,7 @@ def handle (line : String) : String :=
       | .outOfFuel => "fuel"
     | none => "bad-op"
   | ["skip", n, hex] =>
-    match n.toNat?, Wire.bytesOfHex hex with
+    match n.toNat?, bytesOfHexFast hex with
     | some n, some bs =>
       match skipFirst bs n with
       | .ok fs => "ok " ++ showFrags fs
@@ -111,11 +139,11 @@ def handle (line : String) : String :=
       | .outOfFuel => "fuel"
     | _, _ => "bad-op"
   | ["short", b8, hex] =>
-    match Wire.bytesOfHex hex with
+    match bytesOfHexFast hex with
     | some bs => showString (parseShortString bs (b8 = "1"))
     | none => "bad-op"
   | ["str", b8, hex] =>
-    match Wire.bytesOfHex hex with
+    match bytesOfHexFast hex with
     | some bs => showString (parseString bs (b8 = "1"))
     | none => "bad-op"
   | _ => "bad-op"
